@@ -160,7 +160,7 @@ func verifSymbolicFlows(sa *verifAssets, counts []int) {
 			switch sp.kind {
 			case vkSwitch, vkWait, vkWaitTO:
 				sp.hasDef = zzverif.Choice("router-has-default", 2) == 1
-			case vkEnter, vkEnterTerm:
+			case vkEnter, vkEnterTerm, vkEnterFail:
 				sp.enter = zzverif.Choice("enter-target", len(counts))
 			}
 			specs[k] = sp
